@@ -347,5 +347,26 @@ PROPS["C09"] = {
     "jobs": [
         {"name": "establish", "pkg": "root", "entry": "VerifEstablish", "stubs": EST_STUBS, "reach": ["re-established", "replaced-or-gone"],
          "params": {"quick": {"FAULTS": 2}, "thorough": {"FAULTS": 3}}},
+        {"name": "two_callers", "pkg": "root", "entry": "VerifTwoCallers", "stubs": EST_STUBS, "reach": ["both-returned"],
+         "preempts": {"quick": 1, "thorough": 2}, "params": {"quick": {"FAULTS": 1, "BUSY": 1}, "thorough": {"FAULTS": 1, "BUSY": 1}}},
+        {"name": "two_callers_idle", "pkg": "root", "entry": "VerifTwoCallers", "stubs": EST_STUBS, "reach": ["both-returned"],
+         "preempts": {"quick": 1, "thorough": 2}, "params": {"quick": {"FAULTS": 1, "BUSY": 0}, "thorough": {"FAULTS": 2, "BUSY": 0}}},
+    ],
+}
+
+PROPS["C04"] = {
+    "files": EST_FILES, "native_files": ["root/c09_establish_native.go"], "native_cuts": EST_CUTS,
+    "claim": "Safety part only. One request through SendRPC for a cached or unknown region, every script of up to FAULTS cluster "
+             "misbehaviours (request answered not-serving / server-error / retry-later, dial failure, probe failures, hbase:meta "
+             "listing a replacement region or no table) followed by a stable cluster: the request returns success, or TableNotFound "
+             "when the table was removed, never a retryable error; afterwards no live cached region is unavailable. Every recovery step "
+             "of establishRegion is covered by the C09 establish job.",
+    "outside": "NOT CLAIMED: the liveness statement for arbitrary finite fault sequences (only scripts of up to FAULTS faults are "
+               "explored); administrative calls when the master moves; classification of exception class names (checked at the "
+               "region level in C11's receive jobs for the listed classes)",
+    "assumptions": ["(*client).lookupRegion is cut (scripted hbase:meta / ZooKeeper)", "fake region clients; back-off via the repository's override hook"],
+    "jobs": [
+        {"name": "sendrpc_faults", "pkg": "root", "entry": "VerifSendRPCFaults", "stubs": EST_STUBS, "reach": ["succeeded", "table-gone"],
+         "preempts": {"quick": 1, "thorough": 2}, "params": {"quick": {"FAULTS": 2}, "thorough": {"FAULTS": 3}}},
     ],
 }
